@@ -188,6 +188,10 @@ def proj(model, v, sweeten=True, _depth=0):
         out = collections.OrderedDict()
         c = model.cspecs[cname]
         for p in c.get('params', []):
+            if c.get('attributes_hook') == 'nondefault' and 'default' in p \
+                    and plain.same(args[p['name']],
+                                   model._default_value(c, p)):
+                continue
             out[p['name']] = proj(model, args[p['name']], sweeten, _depth + 1)
         if '_yatiml_extra' in args:
             for k, x in args['_yatiml_extra'].items():
@@ -671,6 +675,10 @@ def mutate(spec, rng, class_names=(), key_pool=()):
             if rng.random() < 0.6:
                 # same key, another value: which occurrence counts?
                 dup[1] = rng.choice(SCALAR_SWAPS)
+            if dup[0][0] == 's' and '_' in dup[0][2] and rng.random() < 0.3:
+                # the second occurrence in the dashed spelling: a duplicate
+                # only for a class that reads dashes as underscores
+                dup[0] = ['s', dup[0][1], dup[0][2].replace('_', '-')]
             if rng.random() < 0.5:
                 m[1].append(dup)
             else:
